@@ -475,6 +475,9 @@ def features(model):
 def excluded_class(model):
     """Input classes on which the unchanged tree genuinely deviates (reported);
     excluded by construction so the search goes on behind them."""
+    # F1..F4 were repaired in /repo (commits 4de7d60, 2490f33, b2fd9e3): nothing is kept
+    # out of the domain any more, these classes are generated and judged like all others.
+    return None
     com = model["commissioning"]
     if com is not None and com.get("baud_hex") and com["baudrate"] is not None:
         return "F1 hexadecimal Baudrate in [DeviceComissioning] (import raises ValueError)"
